@@ -100,7 +100,7 @@ def nested_invocations(events, n):
         t = ev[0]
         if t == "S":
             inv = {"rule": ev[1], "q": n - ev[2], "ok": None, "end": None, "children": 0, "probes": [],
-                   "cachehit": False, "depth": len(stack), "errpos": None, "lrloops": 0}
+                   "cachehit": False, "depth": len(stack), "errpos": None, "lrloops": 0, "ucalls": 0}
             if stack:
                 stack[-1]["children"] += 1
             stack.append(inv)
@@ -119,6 +119,10 @@ def nested_invocations(events, n):
         elif t == "P":
             if stack:
                 stack[-1]["probes"].append((ev[1], n - ev[2]))
+        elif t == "U":
+            # a user function (check / extern / @char check) called directly from this invocation
+            if stack:
+                stack[-1]["ucalls"] += 1
         elif t == "I":
             if stack:
                 if ev[1].startswith("Cache hit"):
@@ -145,6 +149,13 @@ class UnitInfo:
         self.memo_rules = {r.name for r in g.rules if r.kind == "rule" and r.has("memoize") and not r.has("leftrec")}
         self.has_userfn = any((r.kind == "extern") or (r.kind in ("rule", "char") and r.checks()) for r in g.rules)
         self.lr_recursive_first = self._lr_recursive_first()
+        # memo probe placed first in a rule's body by the generator: rule -> probe id
+        self.own_probe = {}
+        for r in g.rules:
+            if r.kind == "rule" and len(r.body.alts) == 1 and r.body.alts[0].parts and isinstance(r.body.alts[0].parts[0], Ref):
+                t = g.rule(r.body.alts[0].parts[0].rule)
+                if t is not None and t.kind == "extern" and t.func[-1].startswith("probe_"):
+                    self.own_probe[r.name] = int(t.func[-1].rstrip("c")[6:])
         self.boundaries = None
 
     def _lr_recursive_first(self):
@@ -284,23 +295,28 @@ def compare_case(ui: UnitInfo, rule: str, inp: str, obs: dict, counters: dict):
         for inv in invs:
             if inv["rule"] in ui.memo_rules and inv["ok"] is not None:
                 key = (inv["rule"], inv["q"])
-                e = per.setdefault(key, [0, 0, 0])
+                e = per.setdefault(key, [0, 0, 0, 0])
                 e[0] += 1
-                if inv["probes"]:
-                    # the rule's own probe is the first one in its body; probes of bodies pulled in with `>` have other ids
-                    own = inv["probes"][0][0]
+                if inv["ucalls"] > 0:
+                    e[3] += 1
+                own = ui.own_probe.get(inv["rule"])
+                if own is not None and inv["probes"]:
+                    # only the rule's own probe (first element of its body) counts; probes of bodies pulled in with `>` have other ids
                     e[1] += len([p for p in inv["probes"] if p[0] == own])
                 elif inv["children"] > 0 and not inv["cachehit"]:
                     e[2] += 1
-        for key, (entries, probes, childeval) in per.items():
+        for key, (entries, probes, childeval, withcalls) in per.items():
             cnt("memo_pairs")
+            if withcalls > 1:
+                F.append(Finding("memo_bound", "user functions (checks/externs) of @memoize rule %s were invoked in %d separate attempts at offset %d within one parse (at most one attempt may run them; entries %d)" %
+                                 (key[0], withcalls, key[1], entries), expected=1, observed=withcalls))
             if entries >= 2:
                 cnt("memo_pairs_reentered")
                 facts.setdefault("memo_reentered", []).append(key)
             if probes > 1 or childeval > 1 or (probes >= 1 and childeval >= 1 and False):
                 F.append(Finding("memo_bound", "body of @memoize rule %s evaluated %d times at offset %d within one parse (entries %d)" %
                                  (key[0], max(probes, childeval), key[1], entries), expected=1, observed=max(probes, childeval)))
-        facts["memo_body_evals"] = sum(max(p, c) for (_, p, c) in per.values())
+        facts["memo_body_evals"] = sum(max(p, c) for (_, p, c, _w) in per.values())
     # ---- the model
     try:
         exp = ui.model.parse(rule, inp)
